@@ -177,7 +177,7 @@ func (c *collectWriter) Send(m *sse.Message) error {
 	c.msgs = append(c.msgs, m)
 	return nil
 }
-func (c *collectWriter) Flush() error              { return nil }
+func (c *collectWriter) Flush() error { return nil }
 
 func checkC19Pub(t *testing.T, c C19PubCase) *stats.Verdict {
 	v := &stats.Verdict{Size: c.Times}
